@@ -155,8 +155,14 @@ def run(ctx):
     rels = []
     full = [("3SGB-sequential", C.body(C.test_pdb_text("3SGB")), {"mode": "sequential", "sa": 0, "sb": 0, "cm": {"A": "E", "B": "I"}}),
             ("1HPX-swap-shift", C.body(C.test_pdb_text("1HPX")), {"mode": "none", "sa": -40, "sb": 100, "cm": {"A": "B", "B": "A"}})]
+    # numbers that fill the four columns of their field (>= 1000, <= -100) on the whole dimer, whose catalytic aspartates
+    # are a coupled pair only just (labels are fixed-width: 'ASP1025 A', 'ASP-375 A')
+    full.append(("1HPX-shift-four-columns", C.body(C.test_pdb_text("1HPX")),
+                 {"mode": "none", "sa": (1000, -400)[ctx.seed % 2], "sb": (1000, -400)[ctx.seed % 2], "cm": {"A": "A", "B": "B"}}))
     if ctx.thorough():
         full.append(("4DFR-shift-B", C.body(C.test_pdb_text("4DFR")), {"mode": "none", "sa": 0, "sb": 3, "cm": {"A": "A", "B": "B"}}))
+        full.append(("1HPX-shift-four-columns", C.body(C.test_pdb_text("1HPX")),
+                     {"mode": "none", "sa": (1000, -400)[1 - ctx.seed % 2], "sb": (1000, -400)[1 - ctx.seed % 2], "cm": {"A": "A", "B": "B"}}))
     if ctx.thorough():
         work = [(n, ls, d) for n, ls in structures(ctx) for d in descs] + full
     else:
